@@ -56,6 +56,7 @@ type Report struct {
 	Extra       map[string]any
 	Exceptions  []map[string]string
 	VerifDir    string
+	knownKeys   map[string]bool
 }
 
 func New(prop, tier string) *Report {
@@ -183,6 +184,20 @@ func (r *Report) loadKnown() KnownFile {
 		fmt.Fprintf(os.Stderr, "known_findings.json unreadable: %v\n", err)
 	}
 	return kf
+}
+
+// IsKnown: the key is listed as a known finding for this property (used by rules that attribute an access moved into a
+// helper to the listed function that still performs it through that helper).
+func (r *Report) IsKnown(key string) bool {
+	if r.knownKeys == nil {
+		r.knownKeys = map[string]bool{}
+		for _, f := range r.loadKnown().Findings {
+			if f.Property == r.Prop {
+				r.knownKeys[f.Key] = true
+			}
+		}
+	}
+	return r.knownKeys[key]
 }
 
 // Finish applies the non-vacuity thresholds, matches known findings, writes
